@@ -1,4 +1,5 @@
 import RadicaleProofs.Cache
+import RadicaleProofs.CacheLocal
 /-
   C13 — the item cache never changes what clients see.
 
@@ -64,6 +65,22 @@ theorem c13_ref_ignores_cache_ops (parse : Nat → Option Nat) (files : Nat → 
     | adv a => simp only [refRun]; rw [ih]; rfl
     | mode m => simp only [refRun]; rw [ih]; rfl
 
+/-- **the cache is invisible, local form.**  No global assumption on keys: the invariant is that an entry stored
+    under a name fits the file currently stored under that name; entries travel with files on MOVE (the request
+    reads the item first, so the entry exists), so different files with equal size and mtime are harmless.  The only
+    assumptions are local and are the documented ones: a file written by other means, an entry put back from an
+    earlier time, a member written by a whole upload in the sub-folder layout must not *match* what it meets under
+    the same name unless it is right for it (`OpOkAt`, checked in the state each operation meets). -/
+theorem c13_cache_invisible_local (modes : Mode → Prop) (parse : Nat → Option Nat) (up : Nat → Nat) (ops : List Op)
+    (m : Mode) (hm : modes m) (s : State) (hs : LInv modes parse s) (hok : OkRun modes parse up m s ops) :
+    run parse up m s ops = refRun parse s.files ops :=
+  run_local modes parse up ops m s hm hs hok
+
+/-- the empty cache satisfies the local invariant, whatever the files are -/
+theorem c13_empty_cache_ok (modes : Mode → Prop) (parse : Nat → Option Nat) (files : Nat → Option File) :
+    LInv modes parse ⟨files, fun _ => none⟩ := by
+  intro m _ h e f he; cases he
+
 /-- hash keying: the key identifies the bytes in every world (SHA-256 injective) -/
 theorem c13_hash_key_injective (W : File → Prop) : KeysInj (· = .hash) W := by
   intro m hm; subst hm; exact keyInj_hash W
@@ -97,5 +114,13 @@ example :
       [.req (.upload 1 ⟨7, 3, 100⟩), .adv .wipe, .adv (.plant 1 (.h 8, 80)), .req (.get 1),
        .req (.edit 1 (some ⟨9, 3, 100⟩)), .mode .stat, .req (.get 1)]
       = [some 70, some 70, none, some 90] := by decide +kernel
+
+-- "twins" (finding-free): two different files with equal size and mtime, one MOVEd over the other in mtime+size mode
+example :
+    let parse : Nat → Option Nat := fun c => some (c * 10)
+    let up : Nat → Nat := fun c => c * 10
+    run parse up .stat ⟨fun _ => none, fun _ => none⟩
+      [.req (.upload 1 ⟨7, 3, 100⟩), .req (.upload 2 ⟨8, 3, 100⟩), .req (.get 2), .req (.move 1 2), .req (.get 2)]
+      = [some 70, some 80, some 80, none, some 70] := by decide +kernel
 
 end C13
